@@ -229,6 +229,12 @@ def generate():
                 inst = world.open(is_dict, 900 + fam.index)
                 child_d = type(inst._from_base({}, parent=inst)).__name__
                 child_l = type(inst._from_base([], parent=inst)).__name__
+                # data that is itself a synced collection of ANOTHER family
+                ofam = [f for f in ns.families if f.index != fam.index][0 if fam.index != 0 else 1]
+                ow = World(ns, ofam, tmp)
+                fd, fl = ow.open(True, 800 + fam.index, {"a": 1}), ow.open(False, 820 + fam.index, [1])
+                child_df = type(inst._from_base(fd, parent=inst)).__name__
+                child_lf = type(inst._from_base(fl, parent=inst)).__name__
                 inst_attrs = sorted(vars(inst).keys())
                 protected = sorted(getattr(cls, "_PROTECTED_KEYS", ())) if hasattr(cls, "_PROTECTED_KEYS") else []
                 is_attr = any(b.__name__ == "AttrDict" for b in cls.__mro__)
@@ -237,12 +243,12 @@ def generate():
                 cls_entries.append(
                     "  { name := %s, isDict := %s, validators := %s, supportsThreading := %s,\n"
                     "    attrAccess := %s, protectedKeys := %s,\n    instAttrs := %s,\n    classAttrs := %s,\n"
-                    "    childDict := %s, childList := %s,\n    api := %s }" % (
+                    "    childDict := %s, childList := %s, childDictForeign := %s, childListForeign := %s,\n    api := %s }" % (
                         lstr(cls.__name__), lbool(is_dict), llist(validators_of(cls)),
                         lbool(bool(cls._supports_threading)), lbool(is_attr),
                         llist([lstr(k) for k in protected]), llist([lstr(k) for k in inst_attrs]),
                         llist([lstr(k) for k in sorted(dir(cls))]),
-                        lstr(child_d), lstr(child_l), api_l))
+                        lstr(child_d), lstr(child_l), lstr(child_df), lstr(child_lf), api_l))
             store = {"json": ".json", "redis": ".redis", "mongo": ".mongo", "zarr": ".zarr"}.get(fam.store, ".unknownStore")
             buf = {None: ".none", "serialized": ".serialized", "memory": ".sharedMemory"}[fam.buffered]
             nm = "fam%d" % fam.index
